@@ -18,12 +18,12 @@ def correspond(ck, res, cf, hbin, tag, env=None):
     return impl, model
 
 
-def common_front(ck, res, pid, extra_files=()):
-    ok = ck.coq_build(res)
+def common_front(ck, res, pid, extra_files=(), ties=()):
+    ok = ck.coq_build(res, pid, ties)
     ck.coq_hygiene(res)
-    if ok:
-        ck.coq_property_file(res, pid, extra_files)
-    res.cov["checker_cmd"] = "make -C coq (coq_makefile, full .vo) && coqc -Q coq ADF coq/Properties/%s.v (Print Assumptions under every theorem)" % pid
+    ck.coq_property_file(res, pid, extra_files)
+    res.cov["checker_cmd"] = ("python3 tools/translate.py && make -C coq Extract.vo %s Properties/%s.vo (coq_makefile, full .vo) && "
+                              "coqc -Q coq ADF coq/Properties/%s.v (Print Assumptions under every theorem)" % (" ".join("Gen/%s.vo" % t for t in ties), pid, pid))
     ck.build_driver(res)
 
 
@@ -501,3 +501,206 @@ def check_C08(ck, res, replay):
     res.extra["rejected"] = rej
     res.extra["model_mismatches"] = mism
     return ck.finish(res, "proof", ASSUME_COMMON + ["nom 7.1 primitives (tag, alt, many1, all_consuming, alphanumeric1 = ASCII, take_until, multispace0) behave as transcribed"])
+
+
+# ====================================================================== C13 counts, depth, supports, cubes
+def table_paths(nodes, h, memo):
+    """(paths to bot, paths to top, depth) of handle h"""
+    if h in memo:
+        return memo[h]
+    if h == 0:
+        r = (1, 0, 0)
+    elif h == 1:
+        r = (0, 1, 0)
+    else:
+        v, lo, hi = nodes[h]
+        a, b = table_paths(nodes, lo, memo), table_paths(nodes, hi, memo)
+        r = (a[0] + b[0], a[1] + b[1], max(a[2], b[2]) + 1)
+    memo[h] = r
+    return r
+
+
+def tt_support(tt, nvars):
+    return [j for j in range(nvars) if oracle.tt_cofactor(tt, j, True, nvars) != oracle.tt_cofactor(tt, j, False, nvars)]
+
+
+def judge_queries(body, nvars, a):
+    """judges the answers to the q-lines of a PROG case from the implementation's own table"""
+    bad = []
+    regs, table, tts = tt_of_regs(a, nvars)
+    if table is None:
+        return [("no-table", "no table printed")]
+    size = 1 << nvars
+    memo = {}
+    answers = {}
+    for l in a:
+        w = l.split(" ", 1)
+        if w[0].startswith("q"):
+            answers[w[0]] = w[1]
+    qi = 0
+    for line in body:
+        w = line.split()
+        if w[0] != "q":
+            continue
+        ans = answers.get("q%d" % qi)
+        qi += 1
+        if ans is None:
+            bad.append(("missing", "no answer to %s" % line))
+            continue
+        aw = ans.split()
+        if w[1] in ("paths", "models", "depth", "deps", "cubes"):
+            h = regs[int(w[2])]
+            tt = tts[h]
+            ones = bin(tt).count("1")
+        if w[1] == "paths":
+            pb, pt, d = table_paths(table, h, memo)
+            if (int(aw[1]), int(aw[2])) != (pb, pt):
+                bad.append(("paths", "paths of handle %d: got %s/%s, the table has %d/%d" % (h, aw[1], aw[2], pb, pt)))
+        elif w[1] == "models":
+            cm, m = int(aw[1]), int(aw[2])
+            if cm * ones != m * (size - ones) or cm + m == 0:
+                bad.append(("models", "model counts of handle %d: got cm=%d m=%d, true ratio %d:%d" % (h, cm, m, size - ones, ones)))
+        elif w[1] == "depth":
+            if int(aw[1]) != table_paths(table, h, memo)[2]:
+                bad.append(("depth", "depth of handle %d: got %s, longest path %d" % (h, aw[1], table_paths(table, h, memo)[2])))
+        elif w[1] == "deps":
+            got = [int(x) for x in aw[1].split(",")] if len(aw) > 1 and aw[1] else []
+            if got != tt_support(tt, nvars):
+                bad.append(("deps", "dependencies of handle %d: got %s, the function depends on %s" % (h, got, tt_support(tt, nvars))))
+        elif w[1] == "cubes":
+            goal, gv = w[3] == "1", int(w[4])
+            cubes = []
+            if len(aw) > 1:
+                for c in aw[1].split(";"):
+                    n_, p_ = c.split("|")
+                    cubes.append(([int(x) for x in n_.split(",") if x], [int(x) for x in p_.split(",") if x]))
+            cover = [0] * size
+            for (ng_, ps_) in cubes:
+                for x in range(size):
+                    if all(not (x >> j & 1) for j in ng_) and all(x >> j & 1 for j in ps_):
+                        cover[x] += 1
+            if any(c > 1 for c in cover):
+                bad.append(("cubes-overlap", "cubes of handle %d towards %s overlap" % (h, goal)))
+            for x in range(size):
+                if bool(x >> gv & 1) == goal:
+                    if (bool(tt >> x & 1) == goal) != (cover[x] > 0):
+                        key = "cubes-terminal-root" if h <= 1 else "cubes-cover"
+                        bad.append((key, "cubes of handle %d towards %s (goal variable %d) do not cover exactly the %s: assignment %d" % (
+                            h, goal, gv, "models" if goal else "counter-models", x)))
+                        break
+        elif w[1] == "pimp":
+            v = int(w[2])
+            exp = sum(1 for r in w[3:] if v in tt_support(tts[regs[int(r)]], nvars))
+            if int(aw[1]) != exp:
+                bad.append(("pimp", "passive impact of %d: got %s expected %d" % (v, aw[1], exp)))
+        elif w[1] == "aimp":
+            v = int(w[2])
+            l = w[3:]
+            sup = tt_support(tts[regs[int(l[v])]], nvars)
+            exp = sum(1 for idx in range(len(l)) if idx in sup)
+            if int(aw[1]) != exp:
+                bad.append(("aimp", "active impact of %d: got %s expected %d" % (v, aw[1], exp)))
+    return bad
+
+
+def leaf_case(cf):
+    body = []
+    vals = [0, 1, 2, 3, 7, 100]
+    for cm in vals:
+        for m in vals:
+            body.append("more %d %d" % (cm, m))
+            body.append("min %d %d" % (cm, m))
+    for a in [0, 1, 2, 5]:
+        body.append("istv %d" % a)
+        for b in [0, 1, 2, 5]:
+            body.append("cmpinf %d %d" % (a, b))
+            body.append("noinf %d %d" % (a, b))
+    for v in [0, 5, oracle.VBOT - 1, oracle.VBOT, oracle.VTOP]:
+        body.append("isconst %d" % v)
+    return cf.add("LEAF", body, prefix="leaf")
+
+
+def judge_leaf(body, a):
+    bad = []
+    if a is None:
+        return [("leaf-panic", "leaf predicates panicked")]
+    for i, line in enumerate(body):
+        w = line.split()
+        got = a[i].split()[-1] if i < len(a) else None
+        x = [int(t) for t in w[1:]]
+        tv = lambda h: h <= 1
+        if w[0] == "more":
+            exp = "1" if x[1] >= x[0] else "0"
+        elif w[0] == "min":
+            exp = str(min(x))
+        elif w[0] == "istv":
+            exp = "1" if tv(x[0]) else "0"
+        elif w[0] == "cmpinf":
+            exp = "1" if (tv(x[0]) == tv(x[1]) and (x[0] == 1) == (x[1] == 1)) else "0"
+        elif w[0] == "noinf":
+            exp = "1" if ((tv(x[0]) == tv(x[1]) and (x[0] == 1) == (x[1] == 1)) or not tv(x[0])) else "0"
+        else:
+            exp = "1" if x[0] >= oracle.VBOT else "0"
+        if got != exp:
+            bad.append(("leaf:" + w[0], "%s returns %s, the property prescribes %s" % (line, got, exp)))
+    return bad
+
+
+def check_C13(ck, res, replay):
+    common_front(ck, res, "C13", ties=["TieLeaf", "TieMoreModels"])
+    hbin = ck.build_harness(res)
+    rng = gen.Rng(res.seed ^ 0xC13)
+    cf = gen.CaseFile()
+    leaf_id = None
+    if replay:
+        r = json.load(open(replay))
+        cf.add(r["kind"], r["body"], meta={"nvars": r.get("nvars", 8)})
+    else:
+        leaf_id = leaf_case(cf)
+        for c in (json.load(open(os.path.join(ck.ROOT, "corpus", "counts.json"))) if os.path.exists(os.path.join(ck.ROOT, "corpus", "counts.json")) else []):
+            cf.add(c["kind"], c["body"], prefix="k", meta={"nvars": c["nvars"], "special": c.get("special")})
+        for i in range(1200 if res.tier == "quick" else 40000):
+            nv = 2 + rng.below(6)
+            kind, body = gen.gen_prog(rng, nv, 8 + rng.below(30), queries=True)
+            # more queries at the end, on every kind
+            nreg = sum(1 for l in body if not l.startswith("q"))
+            for _ in range(6):
+                a = rng.below(nreg)
+                q = rng.pick(["paths %d 1" % a, "models %d 0" % a, "depth %d" % a, "deps %d" % a,
+                              "cubes %d %d %d" % (a, rng.below(2), rng.below(nv)), "cubes %d %d %d" % (a, rng.below(2), rng.below(nv))])
+                body.append("q " + q)
+            cf.add(kind, body, meta={"nvars": nv})
+    impl, model = correspond(ck, res, cf, hbin, "C13")
+    nontriv = set()
+    mism = 0
+    for cid, (kind, body, meta) in cf.meta.items():
+        a, b = impl.get(cid), model.get(cid)
+        if kind == "LEAF":
+            for key, what in judge_leaf(body, a):
+                res.violations.append({"key": key, "what": what, "kind": kind, "body": body, "observed": a})
+        else:
+            if meta.get("special") == "deep":
+                # too many variables for truth tables: the counts must at least be produced without a panic
+                if a is None or any("PANIC" in l for l in a):
+                    res.violations.append({"key": "models:overflow-depth64", "what": "model counting of a diagram of depth >= 64 panics (usize overflow)",
+                                           "kind": kind, "body": body, "nvars": meta["nvars"], "observed": (a or [])[-3:]})
+                continue
+            if a is None or any(l.startswith("PANIC") for l in a):
+                res.violations.append({"key": "prog:panic", "what": "implementation panicked", "kind": kind, "body": body, "nvars": meta["nvars"], "observed": a})
+                continue
+            for key, what in judge_queries(body, meta["nvars"], a):
+                res.violations.append({"key": "query:" + key, "what": what, "kind": kind, "body": body, "nvars": meta["nvars"], "observed": a})
+            if sum(1 for l in body if l.startswith("q")) >= 4:
+                nontriv.add(tuple(body))
+        if a != b:
+            mism += 1
+            if mism <= 5:
+                res.broken.append(("correspondence", "case %s: implementation and model differ" % cid, json.dumps({"body": body, "impl": a, "model": b})[:2500]))
+    res.cov["evaluations"] = len(cf.meta)
+    res.cov["distinct_nontrivial"] = len(nontriv)
+    res.cov["rule"] = ("random programs (2..7 variables) with interleaved and trailing queries paths / models(naive) / depth / deps / cubes / impacts; "
+                       "a grid of arguments for the leaf predicates; non-trivial = at least 4 queries, distinct; answers judged from the implementation's own "
+                       "table by path enumeration and truth tables, and compared with the extracted Coq model")
+    res.cov["samples"] = [cf.meta[c][1] for c in list(cf.meta)[-2:]]
+    res.extra["model_mismatches"] = mism
+    return ck.finish(res, "proof", ASSUME_COMMON + ["usize arithmetic = unbounded N below depth 64 (guard stated in the theorems)"])
